@@ -14,6 +14,7 @@ computed any more (try/except, break, ...) is an ANALYSIS-ERROR for that obligat
 from __future__ import annotations
 
 import json
+import ast
 import os
 
 from .model import AnalysisError
@@ -28,6 +29,18 @@ def load_index():
 
 
 def resolve(repo, target: str):
+    if "/" in target:
+        # Class.method/inner: a function defined inside a method, analysed as a function of its own (free variables are names)
+        from .model import FuncInfo
+
+        outer_t, inner = target.split("/", 1)
+        outer = resolve(repo, outer_t)
+        found = [n for n in ast.walk(outer.node) if isinstance(n, ast.FunctionDef) and n is not outer.node and n.name == inner]
+        if len(found) != 1:
+            raise AnalysisError(f"{outer.qualname}: local function {inner} not found")
+        info = FuncInfo(found[0], outer.module, outer.cls)
+        info.name = f"{outer.name}/{inner}"
+        return info
     if ":" in target:
         mod, func = target.split(":")
         return repo.module_func(mod, func)
@@ -36,7 +49,7 @@ def resolve(repo, target: str):
 
 
 def model_text(target: str) -> str:
-    path = os.path.join(DIR, target.replace(":", ".") + ".py")
+    path = os.path.join(DIR, target.replace(":", ".").replace("/", ".") + ".py")
     if not os.path.exists(path):
         raise AnalysisError(f"reference model {path} is missing")
     with open(path, encoding="utf-8") as handle:
